@@ -423,6 +423,10 @@ class Check(object):
             else:
                 self.inconclusive.append('candidate at %s did not reproduce on the real library (rc=%s): %s :: %s' % (
                     c['site'], rc, c['inputs'], out.strip()[-300:]))
+        n_sat = sum(o.get('n', 1) for o in all_obl if o['result'] == 'sat')
+        if n_sat > len(cands):
+            self.inconclusive.append('%d obligation(s) failed (sat) without a replayable candidate: %s' % (
+                n_sat - len(cands), [o['name'] for o in all_obl if o['result'] == 'sat'][:5]))
         unknowns = [o for o in all_obl if o['result'] not in ('unsat', 'sat', 'ok', 'skipped')]
         for o in unknowns:
             self.inconclusive.append('obligation %s: %s (%s)' % (o['name'], o['result'], o['bound']))
